@@ -363,10 +363,9 @@ func TestC01(t *testing.T) {
 	rep.Assume("reference serializer harness/ref written from the MAVLink serialization guide (anchored by upstream golden byte vectors)")
 	rep.Assume("frames violating their own invariants (signature without signed flag, payload > 255) are outside the statement")
 
-	all, err := shippedMessages()
-	if err != nil {
-		t.Fatal(err)
-	}
+	all := shippedOrViolation(rep, t)
+	var err error
+	_ = err
 	seed := vh.Seed()
 	known := pickMsgs(vh.Sub(seed, "c01-known"), all, vh.Pick(24, 0))
 	nRandom := vh.Pick(30000, 400000)
@@ -503,7 +502,7 @@ func TestC01(t *testing.T) {
 	{
 		users, err := userMsgInfos()
 		if err != nil {
-			t.Fatal(err)
+			rep.Violation("ver=1 signed=0 field=message kind=init", "a well-formed user-defined message struct was rejected: "+err.Error(), nil)
 		}
 		var high []*msgInfo
 		var msgs []message.Message
